@@ -253,7 +253,9 @@ class Cell(NullCell):
             payload += ser_result
             serialized_cells_len.append(len(ser_result))
 
-        payload_len = (len(payload).bit_length() + 7) // 8
+        # offsets in the index are doubled when has_cache_bits is set, the offset width must hold them
+        max_offset = len(payload) * 2 if has_cache_bits else len(payload)
+        payload_len = (max_offset.bit_length() + 7) // 8
 
         root_num = 1  # currently 1
         root_index = b'\00' * cells_len
